@@ -34,7 +34,7 @@ NA = {
 }
 
 PENDING = {k: "claimed in DESIGN.md (simulation target) but its check is not registered yet: engine under construction in this round"
-           for k in ("C16", "C17", "C24", "C25", "C29", "C34")}
+           for k in ("C29", "C34")}
 
 TRUST = ("trusted: Linux pipe/fork/waitpid semantics as modelled in sim/rt/vsim.cpp (4096-byte atomic writes, 64KiB capacity, EOF on "
          "last close), libstdc++ filebuf behaviour, the Python XML parser and the canonicalisation of findings; the reference of every "
@@ -42,6 +42,18 @@ TRUST = ("trusted: Linux pipe/fork/waitpid semantics as modelled in sim/rt/vsim.
          "the search samples - a clean batch is evidence, not proof")
 
 CHECKS = {
+ "C16": ("execsim+tsan", "exploration", "6.2",
+         "ThreadSanitizer build of the real CLI under the seeded thread scheduler (handoff invisible to TSan); option sets touching every shared object of the thread executor; any race report is a violation",
+         "deterministic simulation: seeded thread schedules with ThreadSanitizer as the invariant checker"),
+ "C17": ("histsim", "exploration", "6.3",
+         "each unit alone (fresh process = stateless reference model) vs permutations of the file list with one reused analyzer object and vs the thread executor; per-unit findings as multisets, header findings as sets",
+         "deterministic simulation: seeded file-order histories of one long-lived analyzer object, reference = fresh process per file"),
+ "C24": ("execsim+model", "exploration", "6.9",
+         "generated suppression sets; unmatchedSuppression reports compared across executors/schedules and against a reference model of the documented matching rules fed with the raw findings",
+         "deterministic simulation: seeded schedules + executable reference model of unmatched-suppression reporting"),
+ "C25": ("invariant", "exploration", "6.10",
+         "exit-status invariant evaluated on every simulated run: all executors and schedules, cold and cached build dirs, whole-program-only and unmatched-only runs, injected worker deaths, exitcode-suppressions, invalid command lines",
+         "deterministic simulation: invariant over simulated runs (schedules, cache states, injected worker deaths)"),
  "C15": ("execsim", "exploration", "6.1",
          "generated projects analysed by -j1 and by 2-5 runs under the seeded thread scheduler / process transport (schedules, select subsets/timeouts, waitpid lag, load-average stalls, payload chunking); findings, unmatchedSuppression reports and exit status compared",
          "deterministic simulation: seeded thread schedules and worker-process transport, differential oracle vs -j1"),
